@@ -102,6 +102,10 @@ def make_ds(rng, xr, fmt):
             coords["lon"] = np.round(np.sort(rng.uniform(-20, 20, shape[2]) if rng.random() < 0.6 else rng.uniform(-179, 179, shape[2])), 4)
     else:
         coords["site"] = np.arange(shape[1]) if rng.random() < 0.5 else np.arange(1, shape[1] + 1)
+        if fmt in ("ww3", "netcdf") and rng.random() < 0.4:
+            # station identifiers as they come: arbitrary numbers or names
+            coords["site"] = (np.sort(rng.choice(np.arange(100, 99999), shape[1], replace=False)) if rng.random() < 0.5
+                              else np.array(["buoy-%s" % "".join(rng.choice(list("ABCDEFGH"), int(rng.integers(1, 5)))) + str(k_) for k_ in range(shape[1])], dtype=object))
     ds = xr.DataArray(A, dims=lead + ["freq", "dir"], coords=coords, name="efth").to_dataset()
     if grid and rng.random() < 0.4:
         # the same labelled grid held in another dimension order (lon before lat, time not first)
@@ -200,6 +204,11 @@ def one(ctx, rng, xr, ws, fmt, d):
         rec.bad("roundtrip_" + base, key0, {"raised": repr(e)[:400], "options": opts, "sizes": dict(ds.sizes)}, mech)
         return
     compare(rec, base, key0, ds, back, kinds, opts)
+    if base in ("ww3", "netcdf") and "site" in ds.dims:
+        # these formats store the station identifiers: they come back as written (numbers as numbers, names as names)
+        lw, lr = [str(v) for v in ds["site"].values], [str(v) for v in (back["site"].values if "site" in back.coords else [])]
+        (rec.ok("site_labels", base + "|" + ds["site"].dtype.kind) if lw == lr else
+         rec.bad("site_labels", base + "|" + ds["site"].dtype.kind, {"written": lw, "read": lr}, "roundtrip-site-labels-differ:" + base))
     if base in ("swan", "octopus", "json") and rng.random() < 0.35:
         # the same Dataset object written again after its spectra were edited in place: the file holds the edited ones
         how = str(rng.choice(["setitem", "values"]))
